@@ -25,30 +25,37 @@ import (
 
 // Signatures of what can fail.
 const (
-	sigReplay      = "C03/replay-accepted-within-validity" // same salt accepted twice, 60 s or more after the first acceptance (timestamp outlived the salt retention)
-	sigReplayEarly = "C03/replay-accepted-within-60s"      // same, less than 60 s after the first acceptance
-	sigOutside     = "C03/accepted-outside-window"         // accepted although ts-floor(now) is not in (-30, 30]
-	sigRefused     = "C03/fresh-request-refused"           // never-accepted, in-window genuine request refused
-	sigExtremeTS   = "C03/extreme-timestamp-accepted"      // a request whose timestamp is astronomically far from the server clock accepted
-	sigForged      = "C03/unauthenticated-accepted"        // garbage / forged / foreign-key request accepted
-	sigConcDup     = "C03/concurrent-duplicates-accepted"  // k concurrent copies: more than one success
-	sigConcNone    = "C03/fresh-request-refused-concurrent"
-	sigWrongReq    = "C03/accepted-with-wrong-target"
-	sigHarness     = "C03/harness" // the harness itself could not build the case (never a property verdict)
-	window         = 30            // seconds, from the property text
-	baseServerAdv  = 40 * time.Second
+	sigReplay           = "C03/replay-accepted-within-validity" // same salt accepted twice, 60 s or more after the first acceptance (timestamp outlived the salt retention)
+	sigReplayEarly      = "C03/replay-accepted-within-60s"      // same, less than 60 s after the first acceptance
+	sigOutside          = "C03/accepted-outside-window"         // accepted although ts-floor(now) is not in (-30, 30]
+	sigRefused          = "C03/fresh-request-refused"           // never-accepted, in-window genuine request refused
+	sigExtremeTS        = "C03/extreme-timestamp-accepted"      // a request whose timestamp is astronomically far from the server clock accepted
+	sigForged           = "C03/unauthenticated-accepted"        // garbage / forged / foreign-key request accepted
+	sigConcDup          = "C03/concurrent-duplicates-accepted"  // k concurrent copies: more than one success
+	sigConcNone         = "C03/fresh-request-refused-concurrent"
+	sigWrongReq         = "C03/accepted-with-wrong-target"
+	sigStallDup         = "C03/stalled-duplicate-accepted"                   // same bytes accepted twice where at least one of the two presentations arrived in parts (stalled)
+	sigStallRefused     = "C03/stalled-request-refused"                      // a presentation that arrived in parts, valid when its fixed-length header arrived and first of its bytes, refused
+	sigStallRefusedLate = "C03/stalled-request-refused-after-validity-ended" // same, and its last byte arrived when the timestamp would no longer have passed
+	sigIncomplete       = "C03/incomplete-request-accepted"                  // accepted although some of its bytes never arrived
+	sigHarness          = "C03/harness"                                      // the harness itself could not build the case (never a property verdict)
+	window              = 30                                                 // seconds, from the property text
+	baseServerAdv       = 40 * time.Second
 )
 
 // ---- plan ------------------------------------------------------------------------------------
 
 const (
-	stAdv     = iota // advance the server clock by D
-	stPresent        // present request Req once
-	stForge          // present an unauthenticated variant derived from request Req
-	stConc           // present K copies of request Req concurrently
-	stOpen           // open connection Conn for request Req: HandleStream starts on a transport that is still empty
-	stDeliver        // the bytes of its request arrive on the idle connection Conn; wait for the verdict
-	stCred           // a credential-store operation (managed servers only), see credOps
+	stAdv       = iota // advance the server clock by D
+	stPresent          // present request Req once
+	stForge            // present an unauthenticated variant derived from request Req
+	stConc             // present K copies of request Req concurrently
+	stOpen             // open connection Conn for request Req: HandleStream starts on a transport that is still empty
+	stDeliver          // the bytes of its request arrive on the idle connection Conn; wait for the verdict
+	stCred             // a credential-store operation (managed servers only), see credOps
+	stPart             // the next part of its request arrives on the idle connection Conn: everything up to the cut (class Pos, variation K), no EOF
+	stAbort            // the client of the idle connection Conn goes away: EOF without the bytes that are still missing
+	stFinishAll        // the missing bytes of the idle connections Conns arrive at once (no waiting in between); wait for all verdicts
 )
 
 const (
@@ -90,6 +97,7 @@ type step struct {
 	Pos   int           `json:"pos,omitempty"`
 	K     int           `json:"k,omitempty"`
 	Conn  int           `json:"conn,omitempty"`
+	Conns []int         `json:"conns,omitempty"`
 }
 
 type plan struct {
@@ -153,6 +161,12 @@ func (p plan) String() string {
 			fmt.Fprintf(&sb, " open(conn%d for r%d, no bytes yet)", s.Conn, s.Req)
 		case stDeliver:
 			fmt.Fprintf(&sb, " deliver(conn%d)", s.Conn)
+		case stPart:
+			fmt.Fprintf(&sb, " part(conn%d,up to %s)", s.Conn, cutName(s.Pos, s.K))
+		case stAbort:
+			fmt.Fprintf(&sb, " abort(conn%d)", s.Conn)
+		case stFinishAll:
+			fmt.Fprintf(&sb, " deliver-at-once(conns %v)", s.Conns)
 		}
 	}
 	return sb.String()
@@ -390,25 +404,330 @@ func executeUnbounded(t *testing.T, p plan) (out outcome) {
 			return handle(c, want)
 		}
 
-		// idle connections: HandleStream is already running (blocked in its first read) while the clock moves
+		// idle connections: HandleStream is already running (blocked in a read) while the clock moves. The bytes of the
+		// request arrive later: all at once (stDeliver right after stOpen) or in parts (stPart ... stDeliver), possibly never
+		// completely (stAbort, or the end of the case).
 		type idleConn struct {
+			id       int
 			req      int
 			c        *xnet.Conn
 			openedAt time.Duration
 			done     chan [2]bool
-			finished bool
+			finished bool // HandleStream has returned (its verdict has been judged)
+			// stalled presentations
+			sent       int           // bytes of the request delivered so far
+			parts      int           // partial deliveries so far
+			partSeq    int           // order of the first partial delivery among all connections
+			planDone   bool          // the plan has delivered the rest / given up (whatever the server did before that)
+			judgedPart bool          // ... with a part (not with the final delivery)
+			judged     bool          // the fixed-length header has arrived, at judgedAt: the instant the timestamp is judged
+			judgedAt   time.Duration //
+			valid      bool          // timestamp valid at judgedAt
+			demand     bool          // valid, and at judgedAt the same bytes had neither been accepted nor had their header judged valid on another connection
+			copyDuring bool          // a complete copy of the same bytes was presented while this one was stalled after its fixed-length header
 		}
 		idle := map[int]*idleConn{}
+		var idleOrder []*idleConn
 		defer func() {
 			// no goroutine may outlive the case (and the bubble must not end with blocked goroutines)
-			for _, ic := range idle {
+			for _, ic := range idleOrder {
 				if !ic.finished {
 					ic.c.EndInput()
 					<-ic.done
 				}
 			}
 		}()
+		touched := map[int]bool{}    // some presentation of these bytes had its fixed-length header arrive while the timestamp was valid: the salt is spoken for
+		accStalled := map[int]bool{} // the accepted presentation of these bytes arrived in parts
+		abandoned := false           // a stalled presentation whose fixed-length header had been judged valid was given up
+		partSeq := 0
+		stalledOpen := func(r int) (n int) { // stalled presentations (of request r, or of any request if r < 0) the plan has not completed yet
+			for _, ic := range idleOrder {
+				if ic.parts > 0 && !ic.planDone && (r < 0 || ic.req == r) {
+					n++
+				}
+			}
+			return
+		}
+		// judge: the bytes delivered on ic now cover the fixed-length header - the reference rule judges the timestamp at this instant
+		judge := func(ic *idleConn) {
+			ic.judged, ic.judgedAt = true, now
+			ic.valid = validAt(p.Reqs[ic.req].At, now)
+			_, was := accepted[ic.req]
+			ic.demand = ic.valid && !was && !touched[ic.req]
+			if ic.valid {
+				touched[ic.req] = true
+			}
+		}
+		// member: one presentation of a request whose verdict is in; several members = they completed together
+		type member struct {
+			ic            *idleConn     // nil: the bytes arrived all at once on a fresh connection
+			jat           time.Duration // instant its fixed-length header arrived
+			valid, demand bool
+			ok, wrong     bool
+		}
+		atOnce := func(r int) member {
+			_, was := accepted[r]
+			v := validAt(p.Reqs[r].At, now)
+			return member{jat: now, valid: v, demand: v && !was && !touched[r]}
+		}
+		ofConn := func(ic *idleConn, res [2]bool) member {
+			return member{ic: ic, jat: ic.judgedAt, valid: ic.valid, demand: ic.demand, ok: res[0], wrong: res[1]}
+		}
+		// conclude judges the verdicts of presentations of request r that completed at this instant against the reference model.
+		conclude := func(si, r int, ms []member) {
+			k := len(ms)
+			acceptedAt, was := accepted[r]
+			succ, anyValid, anyDemand, demandStalled := 0, false, false, false
+			stalledCase := accStalled[r]
+			var winner *member
+			cls := "n"
+			for i := range ms {
+				m := &ms[i]
+				if m.ok {
+					succ++
+					if winner == nil {
+						winner = m
+					}
+				}
+				if m.wrong {
+					violate(sigWrongReq, "step %d: r%d accepted but the request does not carry its target", si, r)
+				}
+				if m.valid {
+					touched[r] = true
+					anyValid = true
+				}
+				stalled := m.ic != nil && m.ic.parts > 0
+				if m.demand {
+					anyDemand = true
+					demandStalled = demandStalled || stalled
+				}
+				stalledCase = stalledCase || stalled
+				jat := m.jat
+				if ic := m.ic; ic != nil && !stalled {
+					// the bytes arrived all at once, now, on a connection opened earlier
+					out.labels["idle-connection"] = true
+					if now-ic.openedAt >= time.Second {
+						out.labels["idle>=1s-before-bytes-arrive"] = true
+					}
+					if now-ic.openedAt >= 31*time.Second {
+						out.labels["idle>=31s-before-bytes-arrive"] = true
+					}
+					if was && ic.openedAt <= acceptedAt {
+						out.labels["idle-connection-opened-before-earlier-acceptance"] = true
+						if now-acceptedAt >= 60*time.Second {
+							out.labels["idle-connection-opened-before-acceptance-delivered-after-retention"] = true
+						}
+					}
+				}
+				if ic := m.ic; stalled {
+					out.labels["stalled-presentation-completed"] = true
+					if ic.parts >= 2 {
+						out.labels["request-in-three-parts"] = true
+					}
+					if ic.judgedPart {
+						if ic.valid && !validAt(p.Reqs[r].At, now) {
+							out.labels["stalled-after-fixed-header-completed-after-validity-ended"] = true
+						}
+						if ic.valid && now-ic.judgedAt >= 60*time.Second {
+							out.labels["stalled-after-fixed-header-completed->=60s-later"] = true
+							for ai, at := range acceptLog {
+								if acceptWho[ai] != r && at >= ic.judgedAt+60*time.Second {
+									out.labels["stalled-completed-after-retention-with-accept-between"] = true
+									if ic.copyDuring {
+										out.labels["stalled-completed-after-retention-with-copy-and-accept-between"] = true
+									}
+								}
+							}
+						}
+					} else {
+						out.labels["stalled-before-fixed-header-completed"] = true
+						if was {
+							out.labels["stalled-before-fixed-header-completed-after-copy-accepted"] = true
+						}
+					}
+				}
+				if m.ic == nil {
+					for _, ic := range idleOrder {
+						if ic.req == r && ic.parts > 0 && !ic.planDone {
+							if ic.judged {
+								ic.copyDuring = true
+								out.labels["identical-copy-while-stalled-after-fixed-header"] = true
+							} else {
+								out.labels["identical-copy-while-stalled-before-fixed-header"] = true
+							}
+						}
+					}
+				}
+				skew := sec(p.Reqs[r].At) - sec(jat)
+				// classification for the evidence
+				switch {
+				case !m.valid:
+					cls = "x"
+					out.labels["presented-outside-window"] = true
+				case was:
+					cls = "d"
+					out.labels["replay-in-window"] = true
+					if credChanged[r] {
+						out.labels["replay-in-window-after-credential-change"] = true
+					}
+				default:
+					if forgedOn[r] {
+						out.labels["fresh-after-forged-same-salt"] = true
+					}
+					if restampedOn[r] {
+						out.labels["fresh-after-extreme-timestamp-same-salt"] = true
+					}
+					if refusedInvalid[r] {
+						out.labels["valid-after-refused-as-outside-window"] = true
+					}
+				}
+				if was && jat-acceptedAt >= 60*time.Second {
+					// 60 s is the documented retention of salts; whether the timestamp still validates here is the crux
+					out.labels["re-presented-60s-after-accept"] = true
+					if jat-acceptedAt < 61*time.Second {
+						out.labels["re-presented-60s-to-61s-after-accept"] = true
+					}
+					for ai, at := range acceptLog {
+						if acceptWho[ai] != r && at >= acceptedAt+60*time.Second {
+							out.labels["re-presented-after-retention-with-accept-between"] = true
+						}
+					}
+				}
+				if m.valid && (skew == window || skew == -window+1) {
+					out.labels["skew-at-limit"] = true
+				}
+				if now >= 24*time.Hour {
+					out.labels["uptime>=1day"] = true
+				}
+				if now >= (1<<32)*time.Millisecond {
+					out.labels["uptime>=2^32ms"] = true
+				}
+				if was && m.valid && jat >= (1<<31)*time.Millisecond {
+					out.labels["replay-in-window-after-long-uptime"] = true
+					if fa := acceptLog[0]; acceptedAt-fa < (1<<32)*time.Millisecond && jat-fa >= (1<<32)*time.Millisecond-61*time.Second {
+						out.labels["replay-in-window-across-2^32ms-of-pool-uptime"] = true
+					}
+				}
+				if !m.valid && (skew == window+1 || skew == -window) {
+					out.labels["skew-just-outside"] = true
+				}
+			}
+			if stalledCase && ms[0].ic != nil && ms[0].ic.parts > 0 {
+				keyParts = append(keyParts, fmt.Sprintf("%s%ds%d", cls, k, ms[0].ic.parts))
+			} else {
+				keyParts = append(keyParts, fmt.Sprintf("%s%d", cls, k))
+			}
+			how := func(m *member) string {
+				if m.ic == nil || m.ic.parts == 0 {
+					return "bytes arrived at once"
+				}
+				return fmt.Sprintf("conn%d, bytes in %d parts: fixed-length header complete at server instant %v (ts-floor(now) = %d then), last byte at %v",
+					m.ic.id, m.ic.parts+1, m.jat, sec(p.Reqs[r].At)-sec(m.jat), now)
+			}
 
+			// verdicts
+			switch {
+			case succ > 1 && stalledCase:
+				violate(sigStallDup, "step %d: %d of %d presentations of r%d (client instant %v) that completed together at server instant %v accepted", si, succ, k, r, p.Reqs[r].At, now)
+			case succ > 1:
+				violate(sigConcDup, "step %d: %d of %d concurrent copies of r%d accepted at server instant %v", si, succ, k, r, now)
+			case succ == 1 && was && stalledCase:
+				violate(sigStallDup, "step %d: r%d (client instant %v) had been accepted (its fixed-length header arrived at server instant %v) and the same bytes were accepted again at %v (%s); "+
+					"both timestamps were judged inside the validity of the request (valid now: %v)", si, r, p.Reqs[r].At, acceptedAt, now, how(winner), winner.valid)
+			case succ == 1 && was && now-acceptedAt < 60*time.Second:
+				violate(sigReplayEarly, "step %d: r%d (client instant %v) accepted at server instant %v and again only %v later at %v",
+					si, r, p.Reqs[r].At, acceptedAt, now-acceptedAt, now)
+			case succ == 1 && was:
+				if ev.IsKnown("C03", sigReplay) {
+					out.known++
+				} else {
+					violate(sigReplay, "step %d: r%d (client instant %v) accepted at server instant %v and again at %v (%v later, i.e. after the 60s salt retention); ts-floor(now) is now %d",
+						si, r, p.Reqs[r].At, acceptedAt, now, now-acceptedAt, sec(p.Reqs[r].At)-sec(now))
+				}
+			case succ == 1 && !winner.valid:
+				if winner.ic != nil && winner.ic.parts > 0 {
+					violate(sigOutside, "step %d: r%d (client instant %v, ts=floor) accepted (%s): ts-floor(now) = %d was not in (-30, 30] when its fixed-length header arrived",
+						si, r, p.Reqs[r].At, how(winner), sec(p.Reqs[r].At)-sec(winner.jat))
+				} else {
+					violate(sigOutside, "step %d: r%d (client instant %v, ts=floor) accepted at server instant %v: ts-floor(now) = %d is not in (-30, 30]", si, r, p.Reqs[r].At, now, sec(p.Reqs[r].At)-sec(now))
+				}
+			case succ == 0 && !was && anyDemand && demandStalled:
+				dm := &ms[0]
+				for i := range ms {
+					if ms[i].demand && ms[i].ic != nil && ms[i].ic.parts > 0 {
+						dm = &ms[i]
+						break
+					}
+				}
+				sig, why := sigStallRefused, ""
+				if !validAt(p.Reqs[r].At, now) {
+					// rests on the reference rule "the timestamp is judged when the fixed-length header has arrived": by the time the
+					// last byte arrived the timestamp would no longer pass
+					sig, why = sigStallRefusedLate, "; when its last byte arrived the timestamp would no longer have passed, but it is judged when the fixed-length header arrives"
+				}
+				violate(sig, "step %d: r%d (client instant %v) never accepted before and no other presentation of its bytes ahead of it, refused (%s)%s", si, r, p.Reqs[r].At, how(dm), why)
+			case succ == 0 && !was && anyDemand:
+				sig := sigRefused
+				if k > 1 {
+					sig = sigConcNone
+				}
+				violate(sig, "step %d: r%d (client instant %v) never accepted before, whole-second diff %d at server instant %v, refused (forged traffic on its salt before: %v)",
+					si, r, p.Reqs[r].At, sec(p.Reqs[r].At)-sec(now), now, forgedOn[r])
+			}
+			var lastAt time.Duration = -1
+			for i := range ms {
+				m := &ms[i]
+				if !m.valid && !m.ok {
+					refusedInvalid[r] = true
+				}
+				if m.jat != lastAt {
+					pres[r] = append(pres[r], presentation{m.jat, m.valid, succ > 0})
+					lastAt = m.jat
+				}
+			}
+			_ = anyValid
+			if succ > 0 {
+				if !was {
+					accepted[r] = winner.jat
+					accStalled[r] = winner.ic != nil && winner.ic.parts > 0
+					if stalledOpen(-1) > stalledOpen(r) {
+						out.labels["fresh-accepted-while-another-request-is-stalled"] = true
+					}
+					if abandoned {
+						out.labels["fresh-accepted-after-a-stalled-presentation-was-abandoned"] = true
+					}
+				}
+				acceptLog = append(acceptLog, winner.jat)
+				acceptWho = append(acceptWho, r)
+			}
+		}
+		// planned: bookkeeping (labels only) when the plan completes or gives up the connection ic
+		planned := func(ic *idleConn) {
+			ic.planDone = true
+			if ic.parts == 0 {
+				return
+			}
+			copies, first := 0, time.Duration(-1)
+			for _, o := range idleOrder {
+				if o.req != ic.req || o.parts == 0 {
+					continue
+				}
+				copies++
+				if o.judged && (first < 0 || o.judgedAt < first) {
+					first = o.judgedAt
+				}
+				if o != ic && !o.planDone && o.partSeq < ic.partSeq {
+					out.labels["stalled-copies-completed-out-of-order"] = true
+				}
+			}
+			if copies >= 2 && first >= 0 && now-first >= 60*time.Second {
+				out.labels["stalled-copies-completed->=60s-after-first-fixed-header"] = true
+			}
+			if ic.judged && ic.judgedAt < now && !ic.valid && validAt(p.Reqs[ic.req].At, now) {
+				out.labels["fixed-header-arrived-outside-window-rest-arrived-inside"] = true
+			}
+		}
 		for si, s := range p.Steps {
 			if out.violation != "" {
 				return
@@ -417,9 +736,20 @@ func executeUnbounded(t *testing.T, p plan) (out outcome) {
 			progressWhat.Store(plan{Steps: []step{s}}.stepsString())
 			switch s.Kind {
 			case stAdv:
+				if stalledOpen(-1) > 0 {
+					if l, ok := stallAdvLabel[s.D]; ok {
+						out.labels[l] = true
+					}
+				}
 				time.Sleep(s.D)
 				now += s.D
 			case stForge:
+				if stalledOpen(-1) > 0 {
+					out.labels["unauthenticated-traffic-during-a-stall"] = true
+					if stalledOpen(s.Req) > 0 {
+						out.labels["unauthenticated-traffic-on-the-salt-of-a-stalled-presentation"] = true
+					}
+				}
 				fb := forge(s, now)
 				if fb == nil {
 					violate(sigHarness, "step %d: could not build the forged request", si)
@@ -482,8 +812,14 @@ func executeUnbounded(t *testing.T, p plan) (out outcome) {
 				}
 				keyParts = append(keyParts, fmt.Sprintf("c%d", op))
 			case stOpen:
-				ic := &idleConn{req: s.Req, c: newConn(), openedAt: now, done: make(chan [2]bool, 1)}
+				ic := &idleConn{id: s.Conn, req: s.Req, c: newConn(), openedAt: now, done: make(chan [2]bool, 1)}
+				if old := idle[s.Conn]; old != nil && !old.finished { // a plan edited by hand could reuse an id: the old one is given up
+					old.c.EndInput()
+					<-old.done
+					old.finished, old.planDone = true, true
+				}
 				idle[s.Conn] = ic
+				idleOrder = append(idleOrder, ic)
 				want := p.target(s.Req)
 				go func() {
 					ok, wrong := handle(ic.c, want)
@@ -491,166 +827,156 @@ func executeUnbounded(t *testing.T, p plan) (out outcome) {
 				}()
 				synctest.Wait() // HandleStream has reached its blocking first read at this instant
 				keyParts = append(keyParts, "o")
-			case stPresent, stConc, stDeliver:
+			case stPart:
+				ic := idle[s.Conn]
+				if ic == nil || ic.planDone {
+					continue
+				}
+				g := wire[ic.req]
+				cut := cutOffset(s.Pos, s.K, pfx, saltLen, fixedEnd, len(g), p.Class.Segmented)
+				if cut <= ic.sent || cut >= len(g) {
+					continue
+				}
+				if ic.parts == 0 {
+					ic.partSeq = partSeq
+					partSeq++
+				}
+				ic.parts++
+				out.labels[cutLabel(cut, pfx, saltLen, fixedEnd, len(g))] = true
+				switch n := stalledOpen(ic.req); {
+				case n >= 4:
+					out.labels["stalled-copies>=4"] = true
+					fallthrough
+				case n >= 3:
+					out.labels["stalled-copies>=3"] = true
+					fallthrough
+				case n >= 2:
+					out.labels["stalled-copies>=2"] = true
+				}
+				keyParts = append(keyParts, "p"+cutKey(cut, pfx, saltLen, fixedEnd, len(g)))
+				if ic.finished {
+					ic.sent = cut
+					continue
+				}
+				ic.c.Inject(g[ic.sent:cut])
+				ic.sent = cut
+				if !ic.judged && cut >= fixedEnd {
+					judge(ic)
+					ic.judgedPart = true
+				}
+				synctest.Wait() // the server has consumed what it can and is blocked in a read again - or has returned
+				select {
+				case res := <-ic.done:
+					ic.finished = true
+					if !ic.judged {
+						judge(ic) // gave up a request whose fixed-length header had not even arrived: judged as a refusal now
+					}
+					conclude(si, ic.req, []member{ofConn(ic, res)})
+				default:
+				}
+			case stAbort:
+				ic := idle[s.Conn]
+				if ic == nil || ic.planDone {
+					continue
+				}
+				planned(ic)
+				if ic.parts > 0 {
+					out.labels["stalled-presentation-abandoned"] = true
+					if ic.judged && ic.valid {
+						abandoned = true
+					}
+				}
+				keyParts = append(keyParts, "a")
+				if ic.finished {
+					continue
+				}
+				ic.c.EndInput()
+				res := <-ic.done
+				ic.finished = true
+				if res[0] {
+					violate(sigIncomplete, "step %d: r%d accepted on conn%d although only %d of its %d bytes ever arrived", si, ic.req, ic.id, ic.sent, len(wire[ic.req]))
+				}
+			case stFinishAll:
+				var ics []*idleConn
+				for _, id := range s.Conns {
+					ic := idle[id]
+					if ic == nil || ic.planDone {
+						continue
+					}
+					planned(ic)
+					if !ic.finished {
+						ics = append(ics, ic)
+					}
+				}
+				if len(ics) >= 2 {
+					out.labels["stalled-copies-completed-at-once"] = true
+				}
+				for _, ic := range ics {
+					ic.c.Inject(wire[ic.req][ic.sent:])
+					ic.sent = len(wire[ic.req])
+					ic.c.EndInput()
+					if !ic.judged {
+						judge(ic)
+					}
+				}
+				var reqOrder []int
+				groups := map[int][]member{}
+				for _, ic := range ics {
+					res := <-ic.done
+					ic.finished = true
+					if _, ok := groups[ic.req]; !ok {
+						reqOrder = append(reqOrder, ic.req)
+					}
+					groups[ic.req] = append(groups[ic.req], ofConn(ic, res))
+				}
+				for _, r := range reqOrder {
+					conclude(si, r, groups[r])
+				}
+			case stDeliver:
+				ic := idle[s.Conn]
+				if ic == nil || ic.planDone {
+					continue
+				}
+				planned(ic)
+				if ic.finished {
+					continue
+				}
+				// the verdict is judged at the instant the fixed-length header arrived: now, unless earlier parts covered it already
+				ic.c.Inject(wire[ic.req][ic.sent:])
+				ic.sent = len(wire[ic.req])
+				ic.c.EndInput()
+				if !ic.judged {
+					judge(ic)
+				}
+				res := <-ic.done
+				ic.finished = true
+				conclude(si, ic.req, []member{ofConn(ic, res)})
+			case stPresent, stConc:
 				k := 1
 				if s.Kind == stConc {
 					k = s.K
 				}
 				r := s.Req
-				var ic *idleConn
-				if s.Kind == stDeliver {
-					if ic = idle[s.Conn]; ic == nil || ic.finished {
-						continue
-					}
-					r = ic.req
+				ms := make([]member, k)
+				for j := range ms {
+					ms[j] = atOnce(r)
 				}
-				valid := validAt(p.Reqs[r].At, now)
-				acceptedAt, was := accepted[r]
-				succ, wrong := 0, false
-				if ic != nil {
-					// the judgement below is made at the instant the bytes arrive, whenever the connection was opened
-					ic.c.Inject(wire[r])
-					ic.c.EndInput()
-					res := <-ic.done
-					ic.finished = true
-					if res[0] {
-						succ = 1
-					}
-					wrong = res[1]
-					out.labels["idle-connection"] = true
-					if now-ic.openedAt >= time.Second {
-						out.labels["idle>=1s-before-bytes-arrive"] = true
-					}
-					if now-ic.openedAt >= 31*time.Second {
-						out.labels["idle>=31s-before-bytes-arrive"] = true
-					}
-					if was && ic.openedAt <= acceptedAt {
-						out.labels["idle-connection-opened-before-earlier-acceptance"] = true
-						if now-acceptedAt >= 60*time.Second {
-							out.labels["idle-connection-opened-before-acceptance-delivered-after-retention"] = true
-						}
-					}
-				} else if k == 1 {
-					ok, wr := present(wire[r], p.target(r))
-					if ok {
-						succ = 1
-					}
-					wrong = wr
+				if k == 1 {
+					ms[0].ok, ms[0].wrong = present(wire[r], p.target(r))
 				} else {
-					res := make([]bool, k)
-					wr := make([]bool, k)
 					start := make(chan struct{})
 					var wg sync.WaitGroup
 					for j := 0; j < k; j++ {
 						wg.Go(func() {
 							<-start
-							res[j], wr[j] = present(wire[r], p.target(r))
+							ms[j].ok, ms[j].wrong = present(wire[r], p.target(r))
 						})
 					}
 					close(start)
 					wg.Wait()
-					for j := range res {
-						if res[j] {
-							succ++
-						}
-						wrong = wrong || wr[j]
-					}
 					out.labels["concurrent"] = true
 				}
-				if wrong {
-					violate(sigWrongReq, "step %d: r%d accepted but the request does not carry its target", si, r)
-				}
-				skew := sec(p.Reqs[r].At) - sec(now)
-				// classification for the evidence
-				cls := "n"
-				switch {
-				case !valid:
-					cls = "x"
-					out.labels["presented-outside-window"] = true
-				case was:
-					cls = "d"
-					out.labels["replay-in-window"] = true
-					if credChanged[r] {
-						out.labels["replay-in-window-after-credential-change"] = true
-					}
-				default:
-					if forgedOn[r] {
-						out.labels["fresh-after-forged-same-salt"] = true
-					}
-					if restampedOn[r] {
-						out.labels["fresh-after-extreme-timestamp-same-salt"] = true
-					}
-					if refusedInvalid[r] {
-						out.labels["valid-after-refused-as-outside-window"] = true
-					}
-				}
-				if was && now-acceptedAt >= 60*time.Second {
-					// 60 s is the documented retention of salts; whether the timestamp still validates here is the crux
-					out.labels["re-presented-60s-after-accept"] = true
-					if now-acceptedAt < 61*time.Second {
-						out.labels["re-presented-60s-to-61s-after-accept"] = true
-					}
-					for ai, at := range acceptLog {
-						if acceptWho[ai] != r && at >= acceptedAt+60*time.Second {
-							out.labels["re-presented-after-retention-with-accept-between"] = true
-						}
-					}
-				}
-				if valid && (skew == window || skew == -window+1) {
-					out.labels["skew-at-limit"] = true
-				}
-				if now >= 24*time.Hour {
-					out.labels["uptime>=1day"] = true
-				}
-				if now >= (1<<32)*time.Millisecond {
-					out.labels["uptime>=2^32ms"] = true
-				}
-				if was && valid && now >= (1<<31)*time.Millisecond {
-					out.labels["replay-in-window-after-long-uptime"] = true
-					if fa := acceptLog[0]; acceptedAt-fa < (1<<32)*time.Millisecond && now-fa >= (1<<32)*time.Millisecond-61*time.Second {
-						out.labels["replay-in-window-across-2^32ms-of-pool-uptime"] = true
-					}
-				}
-				if !valid && (skew == window+1 || skew == -window) {
-					out.labels["skew-just-outside"] = true
-				}
-				keyParts = append(keyParts, fmt.Sprintf("%s%d", cls, k))
-
-				// verdicts
-				switch {
-				case succ > 1:
-					violate(sigConcDup, "step %d: %d of %d concurrent copies of r%d accepted at server instant %v", si, succ, k, r, now)
-				case succ == 1 && was && now-acceptedAt < 60*time.Second:
-					violate(sigReplayEarly, "step %d: r%d (client instant %v) accepted at server instant %v and again only %v later at %v",
-						si, r, p.Reqs[r].At, acceptedAt, now-acceptedAt, now)
-				case succ == 1 && was:
-					if ev.IsKnown("C03", sigReplay) {
-						out.known++
-					} else {
-						violate(sigReplay, "step %d: r%d (client instant %v) accepted at server instant %v and again at %v (%v later, i.e. after the 60s salt retention); ts-floor(now) is now %d",
-							si, r, p.Reqs[r].At, acceptedAt, now, now-acceptedAt, skew)
-					}
-				case succ == 1 && !valid:
-					violate(sigOutside, "step %d: r%d (client instant %v, ts=floor) accepted at server instant %v: ts-floor(now) = %d is not in (-30, 30]", si, r, p.Reqs[r].At, now, skew)
-				case succ == 0 && valid && !was:
-					sig := sigRefused
-					if k > 1 {
-						sig = sigConcNone
-					}
-					violate(sig, "step %d: r%d (client instant %v) never accepted before, whole-second diff %d at server instant %v, refused (forged traffic on its salt before: %v)",
-						si, r, p.Reqs[r].At, skew, now, forgedOn[r])
-				}
-				if !valid && succ == 0 {
-					refusedInvalid[r] = true
-				}
-				pres[r] = append(pres[r], presentation{now, valid, succ > 0})
-				if succ > 0 {
-					if !was {
-						accepted[r] = now
-					}
-					acceptLog = append(acceptLog, now)
-					acceptWho = append(acceptWho, r)
-				}
+				conclude(si, r, ms)
 			}
 		}
 	})
@@ -685,17 +1011,31 @@ var skewAlphabet = []time.Duration{0, 30 * time.Second, -30 * time.Second, 31 * 
 var phaseAlphabet = []time.Duration{0, 0, time.Nanosecond, -time.Nanosecond, time.Millisecond, -time.Millisecond, 500 * time.Millisecond,
 	time.Second - time.Nanosecond}
 
-type rawStep struct{ Kind, A, B, C, D int }
+type rawStep struct{ Kind, A, B, C, D, E int }
 
-var rawGen = rapid.Custom(func(t *rapid.T) rawStep {
-	return rawStep{
-		Kind: rapid.IntRange(0, 22).Draw(t, "kind"),
-		A:    rapid.IntRange(0, 63).Draw(t, "a"),
-		B:    rapid.IntRange(0, 63).Draw(t, "b"),
-		C:    rapid.IntRange(0, 63).Draw(t, "c"),
-		D:    rapid.IntRange(0, 4095).Draw(t, "d"),
+const rawKinds = 28 // raw step kinds 0..27, see drawPlanKinds
+
+// rawGenOf draws raw steps whose Kind is an index into a list of n raw kinds.
+func rawGenOf(n int) *rapid.Generator[rawStep] {
+	return rapid.Custom(func(t *rapid.T) rawStep {
+		return rawStep{
+			Kind: rapid.IntRange(0, n-1).Draw(t, "kind"),
+			A:    rapid.IntRange(0, 63).Draw(t, "a"),
+			B:    rapid.IntRange(0, 63).Draw(t, "b"),
+			C:    rapid.IntRange(0, 63).Draw(t, "c"),
+			D:    rapid.IntRange(0, 4095).Draw(t, "d"),
+			E:    rapid.IntRange(0, 1<<16-1).Draw(t, "e"),
+		}
+	})
+}
+
+var allKinds = func() (ks []int) {
+	for i := 0; i < rawKinds; i++ {
+		ks = append(ks, i)
 	}
-})
+	return
+}()
+var rawGenAll = rawGenOf(rawKinds)
 
 func at[T any](xs []T, i int) T { return xs[i%len(xs)] }
 
@@ -718,12 +1058,15 @@ func drawClass(rt *rapid.T) sstcp.Class {
 // shrinking) which is then interpreted against the reference model, so that clock advances can be
 // aimed at the interesting instants of an existing request (start/end of its validity, 60 s and
 // 61 s after it was accepted).
-func drawPlan(rt *rapid.T) plan {
+func drawPlan(rt *rapid.T) plan { return drawPlanKinds(rt, allKinds, rawGenAll, 14) }
+
+// drawPlanKinds: the raw step kinds are taken from kinds (a list with repetitions = weights).
+func drawPlanKinds(rt *rapid.T, kinds []int, gen *rapid.Generator[rawStep], maxSteps int) plan {
 	p := plan{Class: drawClass(rt), Seed: rapid.Uint64().Draw(rt, "seed")}
 	p.Dribble = rapid.Bool().Draw(rt, "dribble") && p.Class.Prefix != sstcp.PrefixBig
 	p.Managed = rapid.Bool().Draw(rt, "managed") && p.Class.NIPSK > 0
 	p.Start = baseServerAdv + at([]time.Duration{0, time.Nanosecond, 500 * time.Millisecond, time.Second - time.Nanosecond, 0}, rapid.IntRange(0, 4).Draw(rt, "startphase"))
-	raws := rapid.SliceOfN(rawGen, 1, 14).Draw(rt, "steps")
+	raws := rapid.SliceOfN(gen, 1, maxSteps).Draw(rt, "steps")
 	now := p.Start
 	accepted := map[int]time.Duration{}
 	var genuine []int // indices of genuine specs
@@ -755,8 +1098,27 @@ func drawPlan(rt *rapid.T) plan {
 			}
 		}
 	}
+	dropPending := func(c int) {
+		for i := range pending {
+			if pending[i].conn == c {
+				pending = append(pending[:i:i], pending[i+1:]...)
+				return
+			}
+		}
+	}
+	fresh := func() { // a request made now is presented (and, being valid, accepted: its Add prunes the pool)
+		p.Reqs = append(p.Reqs, reqSpec{At: now})
+		f := len(p.Reqs) - 1
+		genuine = append(genuine, f)
+		p.Steps = append(p.Steps, step{Kind: stPresent, Req: f})
+		note(f)
+	}
+	adv := func(d time.Duration) {
+		p.Steps = append(p.Steps, step{Kind: stAdv, D: d})
+		now += d
+	}
 	for _, s := range raws {
-		switch kind := s.Kind; {
+		switch kind := kinds[s.Kind%len(kinds)]; {
 		case kind <= 1: // plain advance
 			d := at(advAlphabet, s.A) + at(fineAlphabet, s.B)
 			if d < 0 {
@@ -858,6 +1220,147 @@ func drawPlan(rt *rapid.T) plan {
 			p.Steps = append(p.Steps, step{Kind: stDeliver, Conn: pending[i].conn})
 			note(pending[i].req)
 			pending = append(pending[:i:i], pending[i+1:]...)
+		case kind == 23:
+			// the next part of a request arrives on a connection (a pending one, or a new one for a new / an existing request)
+			var c int
+			if len(pending) > 0 && s.C%3 != 0 {
+				c = pending[s.A%len(pending)].conn
+			} else if s.C%2 == 1 {
+				c = openIdle(newReq(false, s.A, s.B))
+			} else {
+				c = openIdle(at(genuine, s.A))
+			}
+			p.Steps = append(p.Steps, step{Kind: stPart, Conn: c, Pos: s.D % cutClasses, K: s.E})
+		case kind == 26 && len(pending) > 0: // the client of a pending connection goes away
+			i := s.A % len(pending)
+			p.Steps = append(p.Steps, step{Kind: stAbort, Conn: pending[i].conn})
+			pending = append(pending[:i:i], pending[i+1:]...)
+		case kind == 24 || kind == 26 || kind == 27:
+			// stall probe: the bytes of one presentation arrive in two or three parts cut at structural boundaries, the clock moves in
+			// between, and meanwhile a byte-identical complete copy, unauthenticated traffic on the same salt and fresh requests
+			// (which get accepted, so the pool is pruned) are presented
+			var r int
+			if s.E%5 == 0 {
+				r = at(genuine, s.A)
+			} else {
+				skew := at([]time.Duration{30 * time.Second, 0, -29 * time.Second, 29 * time.Second, -time.Second, 31 * time.Second, -30 * time.Second, time.Second}, s.A) + at(phaseAlphabet, s.B)
+				p.Reqs = append(p.Reqs, reqSpec{At: now + skew})
+				r = len(p.Reqs) - 1
+				genuine = append(genuine, r)
+			}
+			e := s.E / 5
+			c := openIdle(r)
+			p.Steps = append(p.Steps, step{Kind: stPart, Conn: c, Pos: at([]int{cutFixed, cutSalt, cutVar, cutLast, cutFixed, cutFixedShort, cutVar1, cutVarBody, cutFixed, cutInSalt}, s.C), K: s.D})
+			if e&1 != 0 {
+				if e&2 != 0 {
+					p.Steps = append(p.Steps, step{Kind: stConc, Req: r, K: 2 + s.C%2})
+				} else {
+					p.Steps = append(p.Steps, step{Kind: stPresent, Req: r})
+				}
+			}
+			if e&4 != 0 {
+				p.Steps = append(p.Steps, step{Kind: stForge, Req: r, Forge: at([]int{fgSaltRandom, fgGarbage, fgFlipFixed, fgTruncated}, s.B), Pos: s.D})
+			}
+			adv(at(stallAdv, s.D))
+			if e&8 != 0 {
+				fresh()
+			}
+			if e&16 != 0 {
+				p.Steps = append(p.Steps, step{Kind: stPresent, Req: r})
+			}
+			if e&32 != 0 { // a third part
+				p.Steps = append(p.Steps, step{Kind: stPart, Conn: c, Pos: at([]int{cutVar, cutLast, cutVarBody, cutFixed, cutVar1}, s.A/8), K: s.D / 9})
+				adv(at(stallAdv, s.D/9))
+				if e&64 != 0 {
+					fresh()
+				}
+				if e&128 != 0 {
+					p.Steps = append(p.Steps, step{Kind: stPresent, Req: r})
+				}
+			}
+			if kind == 26 || e>>8&7 == 7 { // never completed
+				p.Steps = append(p.Steps, step{Kind: stAbort, Conn: c})
+				fresh()
+			} else {
+				p.Steps = append(p.Steps, step{Kind: stDeliver, Conn: c})
+			}
+			dropPending(c)
+			note(r)
+			if e>>11&1 != 0 {
+				fresh()
+			}
+			if e>>12&1 != 0 {
+				p.Steps = append(p.Steps, step{Kind: stPresent, Req: r})
+			}
+		case kind == 25:
+			// stalled copies: 2-4 connections carry the first part of the same request; after a drawn advance they are completed in a
+			// drawn order (with drawn advances and fresh requests in between) or all at once
+			var r int
+			if s.E%5 == 0 {
+				r = at(genuine, s.A)
+			} else {
+				skew := at([]time.Duration{30 * time.Second, 0, -29 * time.Second, 29 * time.Second, time.Second, 30 * time.Second}, s.A) + at(phaseAlphabet, s.B)
+				p.Reqs = append(p.Reqs, reqSpec{At: now + skew})
+				r = len(p.Reqs) - 1
+				genuine = append(genuine, r)
+			}
+			e := s.E / 5
+			k := 2 + s.C%3
+			mode := s.C / 3 % 4
+			conns := make([]int, k)
+			for i := range conns {
+				conns[i] = openIdle(r)
+				pos := cutSalt
+				switch mode {
+				case 1:
+					pos = cutFixed
+				case 2:
+					pos = at([]int{cutFixed, cutSalt, cutVar, cutLast, cutFixedShort}, i+s.A)
+				case 3:
+					pos = at([]int{cutVar, cutLast, cutVarBody}, i+s.A)
+				}
+				p.Steps = append(p.Steps, step{Kind: stPart, Conn: conns[i], Pos: pos, K: s.D + i})
+				if e&1 != 0 && i < k-1 {
+					adv(at([]time.Duration{0, time.Second, 29 * time.Second, time.Nanosecond}, s.B/8+i))
+				}
+			}
+			adv(at(stallAdv, s.D))
+			if e&2 != 0 {
+				fresh()
+			}
+			// a drawn order
+			order := append([]int(nil), conns...)
+			for i, x := len(order)-1, s.D/9; i > 0; i-- {
+				j := x % (i + 1)
+				x /= i + 1
+				order[i], order[j] = order[j], order[i]
+			}
+			if e&4 != 0 {
+				p.Steps = append(p.Steps, step{Kind: stFinishAll, Conns: order})
+				note(r)
+			} else {
+				x := e >> 4
+				for i, c := range order {
+					p.Steps = append(p.Steps, step{Kind: stDeliver, Conn: c})
+					note(r)
+					if i < k-1 {
+						if d := at([]time.Duration{0, 0, 60 * time.Second, time.Second, 61 * time.Second, 30 * time.Second, 59 * time.Second, 0}, x); d > 0 {
+							adv(d)
+						}
+						if x&8 != 0 {
+							fresh()
+						}
+						x >>= 4
+					}
+				}
+			}
+			for _, c := range conns {
+				dropPending(c)
+			}
+			if e>>14&1 != 0 {
+				fresh()
+				p.Steps = append(p.Steps, step{Kind: stPresent, Req: r})
+			}
 		case kind == 22:
 			// extreme-timestamp probe: a request the server has not seen; its salt presented with absurd timestamps (made by
 			// a key holder); the genuine request; the same absurd bytes again; the genuine request again
@@ -965,7 +1468,7 @@ func drawPlan(rt *rapid.T) plan {
 			}
 			p.Steps = append(p.Steps, step{Kind: stDeliver, Conn: c})
 			note(r)
-			pending = pending[:len(pending)-1]
+			dropPending(c)
 			if s.D/64%2 == 1 {
 				// whatever was accepted on the idle connection must be remembered from the arrival on
 				p.Reqs = append(p.Reqs, reqSpec{At: now})
@@ -1254,7 +1757,7 @@ func regressionPlans() []plan {
 					{Kind: stPresent, Req: 1}, {Kind: stCred, K: crEditReloadAll}, {Kind: stCred, K: crAdd}, {Kind: stConc, Req: 0, K: 3}, {Kind: stPresent, Req: 1}}})
 		}
 	}
-	return ps
+	return append(ps, stallRegressionPlans()...)
 }
 
 func TestReplayRegression(t *testing.T) {
